@@ -55,7 +55,7 @@ def pair(topo, variant):
         r2 = sysrun.run_world(eng, topo, v, rules=())
         log2 = per_sim(r2.log)
         fp = [topo['name']]
-        vdesc = {k: variant[k] for k in ('cache', 'lazy', 'sync', 'debug', 'reverse_start', 'salt', 'D') if k in variant}
+        vdesc = {k: variant[k] for k in ('cache', 'lazy', 'sync', 'debug', 'reverse_start', 'salt', 'D', 'remote') if k in variant}
         desc = f"{topo['name']} variant={vdesc}"
         if r1.outcome != 'done' or r2.outcome != 'done':
             # completion is C05's business; a crash in only one configuration is still a divergence
@@ -101,6 +101,14 @@ def variants(topo, tier):
         out.append({'cache': True, 'lazy': True, 'sync': sync, 'debug': True})
         out.append({'cache': True, 'lazy': True, 'sync': sync, 'reverse_start': True})
         out.append({'cache': True, 'lazy': True, 'sync': sync, 'salt': 1})
+    # transport: the same simulators behind the (in-memory) remote transport, all message orders; all of them / the first one only
+    rq = {'tb2': 2, 'hyb2': 2, 'tb_ev': 1, 'ev2': 1, 'weaktb': 1, 'grp_out': 1, 'multi_shift': 1}
+    if (len(sims) <= 2 and (not q or topo['name'] in rq)) or (not q and topo['name'] in ('chain3ev', 'fanin', 'tbchain3')):
+        out.append({'cache': True, 'lazy': True, 'sync': sims, 'remote': sims})
+        if len(sims) <= 2 and (not q or rq[topo['name']] > 1):
+            out.append({'cache': True, 'lazy': True, 'sync': sims, 'remote': sims[:1]})
+            if not q:
+                out.append({'cache': False, 'lazy': False, 'sync': sims, 'remote': sims[1:]})
     if not q:
         out.append({'cache': False, 'lazy': False, 'sync': [], 'reverse_start': True, 'salt': 2})
         out.append({'cache': True, 'lazy': True, 'sync': [], 'D': 1})
